@@ -163,7 +163,7 @@ class Worker:
         return res
 
 
-def run_seeds(build, scenario, start, count, nproc=NPROC, env_extra=None, stall_timeout=180, wall_cap=None, on_result=None):
+def run_seeds(build, scenario, start, count, nproc=NPROC, env_extra=None, stall_timeout=300, wall_cap=None, on_result=None):
     """Runs seeds start..start+count-1 of a scenario sharded over worker processes.
     Returns (results, trouble_message|None)."""
     env_extra = dict(env_extra or {})
@@ -225,7 +225,17 @@ def run_seeds(build, scenario, start, count, nproc=NPROC, env_extra=None, stall_
                 continue
             if time.time() - w.last_progress > stall_timeout:
                 w.proc.kill()
-                problem = f'watchdog: worker for {scenario} made no progress for {stall_timeout}s at seed {w.next_seed}'
+                w.proc.wait()
+                if getattr(w, 'stalled_at', None) != w.next_seed and w.remaining > 0:
+                    # A loaded machine can starve one worker; give the same seed one more chance
+                    # in a fresh process before calling it trouble.
+                    w.stalled_at = w.next_seed
+                    extra = {'SIM_SEEDS': f'{w.next_seed}:{w.remaining}'}
+                    if w.resume is not None:
+                        extra['SIM_ENUM_RESUME'] = w.resume
+                    w.start(extra)
+                    continue
+                problem = f'watchdog: worker for {scenario} made no progress for {stall_timeout}s, twice, at seed {w.next_seed}'
                 active.remove(w)
             elif wall_cap and time.time() - t0 > wall_cap:
                 w.proc.kill()
